@@ -26,6 +26,7 @@ HERE = os.path.dirname(os.path.abspath(__file__))
 sys.path.insert(0, HERE)
 import dotleg  # noqa: E402  (readers created with SQFS_DIR_READER_DOT_ENTRIES: props/C10/dotleg.py)
 import sizeleg  # noqa: E402  (images with valid streams that expand to another size than expected: props/C10/sizeleg.py)
+import aliasleg  # noqa: E402  (descriptors that collide on a part of a cache key: aliased locations / size words / fragment entries: props/C10/aliasleg.py)
 import errleg  # noqa: E402  (hostile streams aimed at each decoder's error exits + repeated failing queries: props/C10/errleg.py)
 import lowdirleg  # noqa: E402  (the low-level readdir API with a reused cursor object: props/C10/lowdirleg.py)
 import xfineleg  # noqa: E402  (the fine-grained xattr reader API: crafted xattr sections + op generators: props/C10/xfineleg.py)
@@ -941,6 +942,33 @@ def run(ctx):
                     cases.append(Case("%s-a%d" % (nm, k), p, sizeleg.aimed_ops(rnd, sinfo, 90 if quick else 200), "sizemis"))
                 cases.append(Case("%s-h" % nm, p, gen_ops(rnd, f, 100 if quick else 200), "sizemis"))
 
+        # --- several different block descriptors that collide on a part of a cache key: inodes that alias one block
+        #     location with varied size words (flag flipped, on-disk size +-1, ...), the same size word at neighbouring
+        #     locations, fragment table entries that share a start; every ordered pair "A ; B" on the same readers ---
+        alias_combos = [("gzip", 4096), ("zstd", 4096), ("lz4", 8192), ("xz", 4096)]
+        if not quick:
+            alias_combos += [("gzip", 16384), ("zstd", 8192), ("lz4", 4096), ("xz", 8192)]
+        for ci, (comp, bs) in enumerate(alias_combos):
+            nm = "alias%d_%s" % (ci, comp)
+            try:
+                data, ainfo = aliasleg.build_image(rnd, comp, bs)
+            except Exception as e:
+                ctx.violation("machinery:alias-leg", "cannot build the aliased-descriptor image (%s, %d): %r" % (comp, bs, e),
+                              dict(kind="machinery", detail=repr(e)), no_input=True)
+                continue
+            p = os.path.join(ctx.scratch, nm + ".sqfs")
+            open(p, "wb").write(data)
+            stats["alias_descriptors"] = stats.get("alias_descriptors", 0) + ainfo["descriptors"]
+            # all ordered pairs: on every image in the thorough tier; quick: the fragment families everywhere, the data
+            # families of one codec (rotating with the seed) completely and of the others one family each
+            for k, ops in enumerate(aliasleg.pair_cases(ainfo)):
+                is_frag = k >= len(ainfo["fam"])
+                if quick and not is_frag and ci != ctx.seed % len(alias_combos) and k != (ctx.seed + ci) % len(ainfo["fam"]):
+                    continue
+                cases.append(Case("%s-p%d" % (nm, k), p, ops, "aliaskey"))
+            for k in range(2 if quick else 8):
+                cases.append(Case("%s-a%d" % (nm, k), p, aliasleg.aimed_ops(rnd, ainfo, 150 if quick else 300), "aliaskey"))
+
         # --- hostile streams aimed at each decoder's error exits (memory limit, window, dictionary, check type, mid-block
         #     stop ...), every failing query repeated on the same readers and followed by reads of good blocks ---
         err_combos = [("xz", 4096), ("gzip", 4096), ("zstd", 4096), ("lz4", 4096)]
@@ -1055,6 +1083,7 @@ def run(ctx):
     ctx.coverage["model_timeouts"] = stats.get("model_timeouts", 0)
     ctx.coverage["xattr_fine_api_ops"] = stats.get("fine_ops", 0)
     ctx.coverage["xattr_cursor_ops_not_compared_with_model_after_alloc_failure"] = stats.get("kv_desync_skipped", 0)
+    ctx.coverage["aliased_descriptors_in_images"] = stats.get("alias_descriptors", 0)
     ctx.coverage["distribution"] = dist
     rep_imm = rep_any = 0
     for case in cases:
